@@ -498,3 +498,15 @@ def strip_transparent(e):
                 changed = True
                 break
     return e
+
+
+def closure_feed(fx, cb):
+    """For a closure body: (parent body, the call it is passed to, canonical expression of that call's receiver/first argument).
+    Lets a rule see `xs.iter().for_each(|x| f(x))` like `for x in xs { f(x) }`."""
+    p = cb.parent
+    if p is None:
+        return None
+    for c in p.calls():
+        if cb.q in c.closures:
+            return (p, c, expr(p, c.args[0]) if c.args else "")
+    return None
